@@ -93,6 +93,7 @@ struct Tr<'a> {
     inline_depth: usize,
     expect_ty: Option<String>,    // the type the expression being translated must have (let x: T = .. / x.f = ..): `$T` in templates
     exploded: HashMap<String, (String, Vec<String>)>, // let x = S { f: .. } of an exploded struct type: x -> (S, fields)
+    ret_is_break: bool,           // inside a `loop` that is the last statement of a unit function: `return;` is `break`
     place_alias: HashMap<String, usize>,  // let x = <place expression>: x names that place
     field_types: HashMap<String, String>, // field name -> declared type, from the structs of the target's file
 }
@@ -1146,6 +1147,7 @@ impl<'a> Tr<'a> {
                                 continue;
                             }
                             let sc = Scan {
+                                unit_return: false,
                                 helpers: out.clone(),
                                 has_break: false,
                                 value_return: false,
@@ -1167,6 +1169,7 @@ impl<'a> Tr<'a> {
     fn mk_scan(&self) -> Scan {
         Scan {
             helpers: self.helper_effects(),
+            unit_return: false,
             has_break: false,
             value_return: false,
             assigned: Vec::new(),
@@ -1744,6 +1747,14 @@ impl<'a> Tr<'a> {
                     Err(format!("macro {}!", p))
                 }
             }
+            Expr::Return(r) if r.expr.is_none() && self.ret_is_break && !self.loop_brk.is_empty() => {
+                let vars = self.loop_brk.last().cloned().unwrap();
+                let mut parts = Vec::new();
+                for v in &vars {
+                    parts.push(self.lookup(v).ok_or(format!("loop variable {}", v))?.0);
+                }
+                Ok(format!("Ok ({}, true)", Self::tuple_of(&parts)))
+            }
             Expr::Return(r) => match &r.expr {
                 Some(x) => self.ret(x),
                 None if self.mode() == "mutself" => self.retvars_value(),
@@ -1937,9 +1948,24 @@ impl<'a> Tr<'a> {
                 let fuel = self.t.loopfuel.clone().ok_or("a `loop` needs a loopfuel entry")?;
                 let fuel = self.subst_vars(&fuel);
                 let sc = scan_block_with(&lp.body, self.mk_scan());
-                if sc.value_return {
+                // `return;` inside a loop that is the LAST statement of a function returning nothing (or only its
+                // mutated state) leaves the loop and the function at once: it is a `break`
+                let last = rest.is_empty() && matches!(k, K::End) && matches!(self.mode().as_str(), "unit" | "mutself");
+                let only_bare = {
+                    struct V(bool);
+                    impl<'ast> syn::visit::Visit<'ast> for V {
+                        fn visit_expr_return(&mut self, r: &'ast syn::ExprReturn) { if r.expr.is_some() { self.0 = true; } }
+                        fn visit_expr_closure(&mut self, _c: &'ast syn::ExprClosure) {}
+                    }
+                    let mut v = V(false);
+                    syn::visit::Visit::visit_block(&mut v, &lp.body);
+                    !v.0
+                };
+                if sc.value_return && !(last && only_bare) {
                     return Err("return inside a `loop`".into());
                 }
+                let saved_rib = self.ret_is_break;
+                self.ret_is_break = sc.value_return;
                 let vars: Vec<String> = sc.assigned.into_iter().filter(|v| self.lookup(v).is_some()).collect();
                 let mut init = Vec::new();
                 for v in &vars {
@@ -1953,6 +1979,7 @@ impl<'a> Tr<'a> {
                 self.env.push(HashMap::new());
                 self.loop_brk.push(vars.clone());
                 let body = self.seq(&lp.body.stmts, &K::LoopBrk(vars.clone()));
+                self.ret_is_break = saved_rib;
                 self.loop_brk.pop();
                 self.env = saved;
                 let body = body?;
@@ -2469,6 +2496,7 @@ impl<'a> Tr<'a> {
 
 // ---- does a piece of code return a (non-error) VALUE early, and which variables does it assign?
 struct Scan {
+    unit_return: bool, // a bare `return;`
     has_break: bool,
     value_return: bool,
     assigned: Vec<String>,
@@ -2485,6 +2513,9 @@ impl<'ast> syn::visit::Visit<'ast> for Scan {
             },
             None => false,
         };
+        if r.expr.is_none() {
+            self.unit_return = true;
+        }
         if !is_err {
             self.value_return = true;
         }
@@ -3004,7 +3035,7 @@ fn translate_target(repo: &str, t0: &Target) -> Result<String, String> {
     }
     module_consts(&file, &mut t);
     local_consts(block, &mut t);
-    let mut tr = Tr { t: &t, fresh: 0, env: vec![HashMap::new()], loop_depth: 0, loop_sr: Vec::new(), loop_brk: Vec::new(), file: Some(&file), self_ty: t.func.split_once("::").map(|x| x.0.to_string()), mode_override: Vec::new(), inline_depth: 0, expect_ty: None, place_alias: HashMap::new(), exploded: HashMap::new(), field_types: struct_field_types(&file) };
+    let mut tr = Tr { t: &t, fresh: 0, env: vec![HashMap::new()], loop_depth: 0, loop_sr: Vec::new(), loop_brk: Vec::new(), file: Some(&file), self_ty: t.func.split_once("::").map(|x| x.0.to_string()), mode_override: Vec::new(), inline_depth: 0, expect_ty: None, ret_is_break: false, place_alias: HashMap::new(), exploded: HashMap::new(), field_types: struct_field_types(&file) };
     let kw = if t.recfuel.is_some() { "Fixpoint" } else { "Definition" };
     let mut header = format!("{} {}", kw, t.coq);
     if t.recfuel.is_some() {
